@@ -9,7 +9,7 @@ RULE = ("seeded small bounded MILPs (n<=4, integer data, explicit bound rows or 
         "the continuous rest; nested node LPs are judged by the C03 LP oracle; non-trivial = the LP relaxation "
         "optimum is fractional in an integer variable or no integer point exists; distinct = distinct (problem, configs)")
 ASSUMPTIONS = ["integer data |v|<=9, integer box implied by the rows (u<=6)", "OPTIMAL tolerance gap_tol*(1+|opt|)+1e-6",
-               "a limit status (MAX_ITER) carries no claim and is accepted only when max_nodes was set small"]
+               "a limit status (MAX_ITER) carries no claim and is accepted only when max_nodes or max_iter was set small"]
 STRATA = [
     ("bounded", 400, 8000),
     ("binary-explicit", 250, 5000),
@@ -21,6 +21,7 @@ STRATA = [
     ("equality", 150, 3000),
     ("infeasible-int", 150, 3000),
     ("max-nodes", 150, 3000),
+    ("lp-limit", 400, 6000),
     ("unbounded", 100, 2000),
     ("deep-tree", 150, 3000),
     ("int-ties", 8000, 60000),
@@ -383,6 +384,22 @@ def gen(stratum, rng, tier):
         ints = list(range(n))
         _bound_rows(rng, n, A, b)
         configs = [{"max_nodes": k, "heuristics": h} for k in (1, 2, 3, 5) for h in (True, False)][: rng.randint(3, 8)]
+    elif stratum == "lp-limit":
+        # a caller-supplied limit on simplex iterations per relaxation (0, 1, 2, ...): a relaxation that ran out of
+        # iterations proves nothing - its point must not come back as a solution, its node is not infeasible
+        n = rng.randint(2, 4)
+        c, A, b = _base(rng, n, rng.randint(1, 3))
+        ints = list(range(n)) if rng.random() < 0.7 else sorted(rng.sample(range(n), rng.randint(1, n)))
+        _bound_rows(rng, n, A, b)
+        if rng.random() < 0.5:
+            # a negative right-hand side: the relaxation needs phase 1, which is what eats a small budget
+            row = [rng.choice([0, 1, 1, 2]) for _ in range(n)]
+            if any(row):
+                A.append([-v for v in row])
+                b.append(-rng.randint(1, 3))
+        configs = [{"max_iter": k, "heuristics": h} for k in (0, 1, 2, 3, 4, 6, 9) for h in (True, False)]
+        rng.shuffle(configs)
+        configs = configs[: rng.randint(3, 6)]
     elif stratum == "deep-tree":
         # general integers with coprime coefficients: the branch-and-bound tree is several levels deep and the
         # optimum frequently sits in a right (>= ceil) branch below depth 2
@@ -606,7 +623,7 @@ def run(case, obs):
         st = res.status.name
         obs.outcome(st)
         obs.event("milp.judged")
-        small_limit = cfg.get("max_nodes", 10**9) <= 1000
+        small_limit = cfg.get("max_nodes", 10**9) <= 1000 or cfg.get("max_iter", 10**9) <= 1000
         if st in ("OPTIMAL", "FEASIBLE"):
             ok = _feasible_point(case, res.solution, "solution", obs)
             if ok:
